@@ -318,8 +318,7 @@ def main(tier, seed):
             rep.counters[k] = max(rep.counters[k], v)
     c = rep.counters
     for need in ("asan.calls", "placement.cases", "memcheck.records", "poison.compared", "cost.runs", "is_email"):
-        if not c[need]:
-            raise core.Inconclusive("instrument produced no observation: " + need)
+        rep.require(not (not c[need]), "instrument produced no observation: " + need)
     ev = c["asan.calls"] + c["placement.calls"] + c["memcheck.records"] + c["poison.compared"] * 4 + c["is_email"] + c["cost.runs"] + c["fuzz.executions"]
     rep.assumptions += ["a clean sanitizer run is evidence on the paths reached, not a proof of memory safety (intra-object overflows, "
                         "reads inside libidn2 are not seen)", "allocation-failure paths are excluded by the statement",
